@@ -2,6 +2,8 @@ package main
 
 import (
 	"fmt"
+	"os"
+	"time"
 )
 
 // A decision is a point with k possible outcomes. alts holds the outcomes
@@ -12,6 +14,7 @@ type decision struct {
 	alts   []int
 	PcLen  int   `json:"p"` // length of the path condition before this decision
 	Forced bool  `json:"f"` // only one outcome was feasible: nothing was added to the pc
+	Val    uint64 `json:"v,omitempty"` // concretizeAny: the value of outcome 0
 }
 
 // checkSplit ends the path at the split depth (master of a parallel run): the
@@ -29,7 +32,7 @@ func (in *Interp) checkSplit() {
 	if n >= in.splitDepth {
 		pf := make([]decision, len(in.path))
 		for i, d := range in.path {
-			pf[i] = decision{K: d.K, Chosen: d.Chosen, PcLen: d.PcLen, Forced: d.Forced}
+			pf[i] = decision{K: d.K, Chosen: d.Chosen, PcLen: d.PcLen, Forced: d.Forced, Val: d.Val}
 		}
 		in.frontier = append(in.frontier, pf)
 		panic(pathEnd{"frontier", ""})
@@ -46,7 +49,18 @@ func (in *Interp) feasible(c *Term, wantModel bool) bool {
 	if in.prof != nil && in.curSite != nil {
 		in.prof[in.prog.Fset.Position(in.curSite.Pos()).String()+" "+in.curSite.Parent().Name()]++
 	}
+	if os.Getenv("GOSYM_QLOG") != "" && in.curSite != nil {
+		b := c.body()
+		if len(b) > 160 {
+			b = b[:160]
+		}
+		fmt.Fprintf(os.Stderr, "Q %s %s: %s\n", in.curSite.Parent().Name(), in.curSite.Block().Comment, b)
+	}
+	t0 := time.Now()
 	res, model := in.solver.check(in.pc, c, wantModel)
+	if d := time.Since(t0); d > 2*time.Second && os.Getenv("GOSYM_SLOW") != "" && in.curSite != nil {
+		fmt.Fprintf(os.Stderr, "SLOW %.1fs %v feasibility at %s in %s\n", d.Seconds(), res, in.prog.Fset.Position(in.curSite.Pos()), in.curSite.Parent().Name())
+	}
 	switch res {
 	case rUnsat:
 		return false
@@ -376,6 +390,89 @@ func (in *Interp) concretize(t *Term, n int) int {
 	in.pos++
 	in.addPC(cond(d.Chosen))
 	return d.Chosen
+}
+
+// concretizeAny turns a symbolic bit-vector into a concrete value by
+// enumerating its feasible values with the solver's models: each step is a
+// two-way decision "t == v" (v taken from a model and recorded in the
+// decision) or "t != v".  Used where a shape (slice bound, make size) turned
+// out symbolic.
+func (in *Interp) concretizeAny(t *Term, what string) uint64 {
+	if t.isConst() {
+		return t.cval
+	}
+	if in.concrete {
+		panic("concretizeAny in concrete mode")
+	}
+	if in.noFork {
+		panic(unsupported{"decision inside a speculatively executed branch arm"})
+	}
+	w := t.sort.w
+	for n := 0; ; n++ {
+		if n > in.cfg.maxConcretize {
+			panic(pathEnd{"bound", fmt.Sprintf("%s: more than %d feasible values of a symbolic size", what, in.cfg.maxConcretize)})
+		}
+		if in.pos < len(in.path) {
+			d := in.path[in.pos]
+			in.pos++
+			if d.K != 2 {
+				panic(fmt.Sprintf("replay divergence: expected %d-way decision, got value enumeration", d.K))
+			}
+			eq := mkEq(t, mkBV(d.Val, w))
+			if d.Chosen == 0 {
+				if !d.Forced {
+					in.addPC(eq)
+				}
+				return d.Val
+			}
+			in.addPC(mkNot(eq))
+			continue
+		}
+		in.checkSplit()
+		if len(in.path) >= in.cfg.maxDecisions {
+			panic(pathEnd{"bound", fmt.Sprintf("decision bound %d exceeded", in.cfg.maxDecisions)})
+		}
+		var v uint64
+		got := false
+		if in.model != nil {
+			if x, ok := evalTerm(t, in.model, in.modelMemo); ok {
+				v, got = x, true
+			}
+		}
+		if !got {
+			in.stats.feasQueries++
+			res, model := in.solver.check(in.pc, nil, true)
+			if res != rSat {
+				if res == rUnsat {
+					panic(pathEnd{"assume", "infeasible path at value enumeration"})
+				}
+				in.stats.unknownFeas++
+				in.stats.inconclusive++
+				panic(pathEnd{"inconclusive", what + ": solver could not produce a value"})
+			}
+			in.model, in.modelMemo = model, map[*Term]uint64{}
+			x, ok := evalTerm(t, model, in.modelMemo)
+			if !ok {
+				panic(unsupported{"cannot evaluate term under model"})
+			}
+			v = x
+		}
+		eq := mkEq(t, mkBV(v, w))
+		other := in.feasible(mkNot(eq), false)
+		d := decision{K: 2, Chosen: 0, PcLen: len(in.pc), Forced: !other, Val: v}
+		if other {
+			d.alts = []int{1}
+			in.stats.decisions++
+		} else {
+			in.stats.forced++
+		}
+		in.path = append(in.path, d)
+		in.pos++
+		if other {
+			in.addPC(eq)
+		}
+		return v
+	}
 }
 
 // backtrack prepares the next path; false when exploration is complete.
